@@ -91,6 +91,8 @@ class ServerHarness(h_lib.LibHarness):
                       'BasePath::{key_to_url,url_to_key,name_to_url,relative_to_full_path}', 'extension traits of extensions.rs', 'Database::{new,parser,lines,update_document}',
                       'Parser::{new,url_at,link_at}', 'Document::link_at', 'Tree::change_key', 'GraphInline::change_key', 'Graph::{new_patch,build_key,export_key,to_markdown}',
                       'GraphBuilder::insert_from_iter', 'the seven action providers')
+    tv_every = 3
+    tv_phase = 0
     required_covers = ('references', 'definition-found', 'definition-none', 'rename', 'rename-refused', 'formatting', 'symbols', 'hints',
                        'code-action-resolved', 'unknown-uri', 'after-edit')
 
@@ -210,6 +212,7 @@ class ServerHarness(h_lib.LibHarness):
             ctx.law('C05.references-name-the-linking-notes-and-lines', got == exp, dict(info, expected=exp, got=got))
             ctx.law('C13.reference-locations-are-the-linking-lines', got == exp, dict(info, expected=exp, got=got))
             ctx.cover('references')
+            ctx.tv_result = [list(x) for x in got]
         elif req in ('definition', 'prepare_rename'):
             line, ch = ctx.sym_bv('line', 32), ctx.sym_bv('character', 32)
             def query():
@@ -250,15 +253,54 @@ class ServerHarness(h_lib.LibHarness):
             exp = neutral_tokens(docs[ukey]) if ukey else None
             ctx.law('C01.formatting-request-keeps-every-block', got is not None and got == exp, dict(info, got=got, expected=exp))
             ctx.cover('formatting')
+            ctx.tv_result = got
         elif req == 'symbols':
             r = ex.call('Server::handle_document_symbols', [sref, lsp(prog, 'DocumentSymbolParams', text_document=tdi)])
             ctx.cover('symbols')
+            ctx.tv_result = [[x.v.get('name'), natives.url_str(x.v.get('location').get('uri')), x.v.get('location').get('range').get('start').get('line')] for x in r.items]
         elif req == 'hints':
             r = ex.call('Server::handle_inlay_hints', [sref, lsp(prog, 'InlayHintParams', text_document=tdi, range=natives._lsp_range_new(ex, None, [natives._lsp_position_new(ex, None, [0, 0], None), natives._lsp_position_new(ex, None, [99, 0], None)], None))])
             ctx.cover('hints')
+            ctx.tv_result = sorted([x.v.get('label').f[0].v, x.v.get('position').get('line')] for x in r.items)
         else:
             self.code_action(ctx, ex, sref, tdi, ukey, info)
+        if getattr(ctx, 'tv_result', None) is not None and self.tv_pick(ctx.trace):
+            base = {'op': 'server', 'state': {k + '.md': t for k, t in init_texts.items()}, 'request': req, 'uri': uri, 'line': 0, 'character': 0}
+            if edit_text is not None:
+                base['edits'] = [{'uri': url_of('b'), 'text': edit_text}]
+            if req == 'rename' and getattr(ctx, 'rename', None):
+                base.update(line=ctx.rename['line'], character=ctx.rename['character'], new_name=ctx.rename['new_name'])
+            ctx.tv = {'script': [base], 'expect': None, 'post': [req, ctx.tv_result]}
         return info
+
+    def tv_compare(self, tv, native_out):
+        req, exp = tv['post']
+        out = native_out[0]
+        if isinstance(out, dict) and ('panic' in out or 'crash' in out):
+            tv['diff'] = out
+            return False
+        if req == 'references':
+            got = sorted([l['uri'], l['range']['start']['line']] for l in out)
+        elif req == 'formatting':
+            got = plain_tokens(out[0]) if out else None
+        elif req == 'symbols':
+            got = [[x['name'], x['location']['uri'], x['location']['range']['start']['line']] for x in out]
+        elif req == 'hints':
+            got = sorted([x['label'], x['position']['line']] for x in out)
+        elif req == 'rename':
+            e = out.get('ok')
+            got = {'deleted': e['deleted'], 'created': e['created'], 'edits': {u: [plain_tokens(b), sorted(x[0] for x in self.refs_of(b))] for u, b in e['edits'].items()}} if e else None
+            exp = dict(exp, edits={u: [v[0], sorted(x[0] for x in v[1])] for u, v in exp['edits'].items()}) if exp else exp      # link labels are refreshed by the text round trip: urls only
+        else:
+            return True
+        if got != exp:
+            tv['diff'] = {'executor': exp, 'native': got}
+            return False
+        return True
+
+    def tv_pick(self, trace):
+        import zlib
+        return zlib.crc32(repr(trace).encode()) % self.tv_every == self.tv_phase
 
     def tok_list(self, seq):
         return sorted(tokens_of(seq))
@@ -339,6 +381,7 @@ class ServerHarness(h_lib.LibHarness):
                 edits[u] = nt.data if type(nt) is Opaque else None
         self.judge_rename(self.neutral, ukey, url, new_name, deleted, created, edits, ctx.law, info)
         ctx.cover('rename')
+        ctx.tv_result = {'deleted': deleted, 'created': created, 'edits': {u: [plain_tokens(b), sorted(self.refs_of(b))] for u, b in edits.items() if b is not None}}
 
     def judge_rename(self, docs, ukey, url, new_name, deleted, created, edits, law, info):
         old = resolve(url, ukey)
